@@ -1,5 +1,7 @@
 import Driver.Song
 import Ctrmml.Spec.Expand
+import Ctrmml.Model.Optimizer
+import Ctrmml.Model.Player
 namespace Driver.OptD
 open Ctrmml Ctrmml.Expand Driver Tables
 
@@ -60,7 +62,54 @@ def judge (arg impl : String) : String :=
             else "ok"
           | x :: _ => "fail " ++ x
 
-def model (_arg : String) : String := "MODEL:optimizer-not-modelled"
+def playerMsg : Player.PErr → String
+  | .stackOverflow => "stack_overflow_(depth_limit_reached)"
+  | .unterminatedLoop => "unterminated_'[]'_loop"
+  | .unexpectedLoopEnd => "unexpected_']'_loop_end"
+  | .drumNoNote => "drum_routine_contains_no_note"
+  | .invalidLoopCount => "Invalid_loop_count"
+  | .jumpMissing => "jump_destination_doesn't_exist"
+  | .drumTrackMissing => "drum_mode_error"
+  | .platformMissing => "Platform_command_is_not_defined"
+  | .impossible => "MODEL:impossible"
+  | .fuel => "MODEL:fuel"
+
+/-- `Song_Validator`: every track in key order; the first failure is the exception -/
+def validateAll (song : Song) : Except String String :=
+  song.tracks.foldlM (fun acc (p : Nat × List Event) =>
+    match Player.runValidator song p.2 3000000 Player.initState with
+    | .error e => .error (playerMsg e)
+    | .ok s =>
+      let r := Player.validatedOf s
+      .ok (acc ++ (if acc.isEmpty then "" else ",") ++ s!"{p.1}:{r.playTime}:{r.loopPlayTime}:{r.loopLength}")) ""
+
+def showV (r : Except String String) : String :=
+  match r with
+  | .ok s => "ok:" ++ s
+  | .error m => "err:" ++ m
+
+def dumpSong (song : Song) : String :=
+  " ".intercalate (song.tracks.map fun (id, evs) => s!"T{id}:" ++ (if evs.isEmpty then "" else showEvents evs))
+
+def model (arg : String) : String :=
+  match parseSong (words arg) with
+  | none => "bad-request"
+  | some (song0, rest) =>
+    let song : Song := { tracks := sortTracks song0.tracks }
+    let minScore : Int := ((rest.head?.bind parseInt?).getD 10)
+    let before := validateAll song
+    match before with
+    | .error _ => "before=" ++ showV before
+    | .ok _ =>
+      let valid (s : Song) : Bool := match validateAll s with | .ok _ => true | .error _ => false
+      match Opt.optimize valid minScore 100000 song (Opt.initialSubId song) [] with
+      | .error .missingTrack => s!"before={showV before} result=exc:out_of_range"
+      | .error .stackListOOB => s!"before={showV before} result=UB:stack-list-oob"
+      | .error .fuel => "MODEL:fuel"
+      | .ok r =>
+        let after := validateAll r.song
+        let res := if r.validated then "ok" else match after with | .error m => "threw:" ++ m | .ok _ => "ok"
+        s!"before={showV before} result={res} passes={r.passes.length} after={showV after} song= {dumpSong r.song}"
 
 def handlers : List Driver.Handler := [{ cmd := "opt", model := model, judge := judge }]
 end Driver.OptD
